@@ -97,6 +97,19 @@ pub trait Scheme: Sized + Send + Sync + 'static {
     fn random_like(info: &KeyInfo, like: &Self::P, seed: u64) -> Self::P;
     fn is_zero_poly(p: &Self::P) -> bool;
     fn point_json(p: &Self::Pt) -> Value;
+    fn proof_bytes(p: &Proof<Self>, compress: bool) -> Vec<u8>;
+    fn proof_from_bytes(b: &[u8], compress: bool, validate: bool) -> Result<Proof<Self>, String>;
+    /// Code-based schemes only: log2 of the probability (over the Fiat-Shamir column indices) that an
+    /// *honest* proof for `polys` opened at the original point passes the column checks when the verifier
+    /// is handed `z_new` instead. `None` = the scheme's rejection is deterministic / overwhelming.
+    fn moved_point_pass_log2(
+        _keys: &Keys<Self>,
+        _polys: &[&Self::P],
+        _proof: &Proof<Self>,
+        _z_new: &Self::Pt,
+    ) -> Option<f64> {
+        None
+    }
 }
 
 // ---------------------------------------------------------------------------------------------
@@ -241,6 +254,25 @@ macro_rules! uni_common {
         }
         fn point_json(p: &Self::Pt) -> Value {
             json!(format!("{}", p))
+        }
+        fn proof_bytes(p: &Proof<Self>, compress: bool) -> Vec<u8> {
+            use ark_serialize::CanonicalSerialize;
+            let mut v = Vec::new();
+            if compress {
+                p.serialize_compressed(&mut v).unwrap();
+            } else {
+                p.serialize_uncompressed(&mut v).unwrap();
+            }
+            v
+        }
+        fn proof_from_bytes(b: &[u8], compress: bool, validate: bool) -> Result<Proof<Self>, String> {
+            use ark_serialize::{CanonicalDeserialize, Compress, Validate};
+            <Proof<Self> as CanonicalDeserialize>::deserialize_with_mode(
+                b,
+                if compress { Compress::Yes } else { Compress::No },
+                if validate { Validate::Yes } else { Validate::No },
+            )
+            .map_err(|e| format!("{e:?}"))
         }
     };
 }
@@ -499,6 +531,25 @@ impl Scheme for Pst13 {
     fn point_json(p: &Self::Pt) -> Value {
         json!(p.iter().map(|x| format!("{}", x)).collect::<Vec<_>>())
     }
+    fn proof_bytes(p: &Proof<Self>, compress: bool) -> Vec<u8> {
+        use ark_serialize::CanonicalSerialize;
+        let mut v = Vec::new();
+        if compress {
+            p.serialize_compressed(&mut v).unwrap();
+        } else {
+            p.serialize_uncompressed(&mut v).unwrap();
+        }
+        v
+    }
+    fn proof_from_bytes(b: &[u8], compress: bool, validate: bool) -> Result<Proof<Self>, String> {
+        use ark_serialize::{CanonicalDeserialize, Compress, Validate};
+        <Proof<Self> as CanonicalDeserialize>::deserialize_with_mode(
+            b,
+            if compress { Compress::Yes } else { Compress::No },
+            if validate { Validate::Yes } else { Validate::No },
+        )
+        .map_err(|e| format!("{e:?}"))
+    }
 }
 
 // ---------------------------------------------------------------------------------------------
@@ -559,6 +610,25 @@ macro_rules! mle_common {
         }
         fn point_json(p: &Self::Pt) -> Value {
             json!(p.iter().map(|x| format!("{}", x)).collect::<Vec<_>>())
+        }
+        fn proof_bytes(p: &Proof<Self>, compress: bool) -> Vec<u8> {
+            use ark_serialize::CanonicalSerialize;
+            let mut v = Vec::new();
+            if compress {
+                p.serialize_compressed(&mut v).unwrap();
+            } else {
+                p.serialize_uncompressed(&mut v).unwrap();
+            }
+            v
+        }
+        fn proof_from_bytes(b: &[u8], compress: bool, validate: bool) -> Result<Proof<Self>, String> {
+            use ark_serialize::{CanonicalDeserialize, Compress, Validate};
+            <Proof<Self> as CanonicalDeserialize>::deserialize_with_mode(
+                b,
+                if compress { Compress::Yes } else { Compress::No },
+                if validate { Validate::Yes } else { Validate::No },
+            )
+            .map_err(|e| format!("{e:?}"))
         }
     };
 }
@@ -662,6 +732,14 @@ impl Scheme for MLigero {
         })
     }
     mle_common!();
+    fn moved_point_pass_log2(
+        keys: &Keys<Self>,
+        polys: &[&Self::P],
+        proof: &Proof<Self>,
+        z_new: &Self::Pt,
+    ) -> Option<f64> {
+        crate::lincode::moved_point_pass_log2::<Self>(keys, polys, proof, z_new)
+    }
 }
 
 pub struct Brakedown;
@@ -709,6 +787,14 @@ impl Scheme for Brakedown {
         Ok(Keys { pp, ck, vk, info })
     }
     mle_common!();
+    fn moved_point_pass_log2(
+        keys: &Keys<Self>,
+        polys: &[&Self::P],
+        proof: &Proof<Self>,
+        z_new: &Self::Pt,
+    ) -> Option<f64> {
+        crate::lincode::moved_point_pass_log2::<Self>(keys, polys, proof, z_new)
+    }
 }
 
 impl<T> Out<T> {
@@ -764,6 +850,14 @@ impl Scheme for ULigero {
         })
     }
     uni_common!(Fr, UniPoly);
+    fn moved_point_pass_log2(
+        keys: &Keys<Self>,
+        polys: &[&Self::P],
+        proof: &Proof<Self>,
+        z_new: &Self::Pt,
+    ) -> Option<f64> {
+        crate::lincode::moved_point_pass_log2::<Self>(keys, polys, proof, z_new)
+    }
 }
 
 /// Evaluate with a second, independent method where one exists (Horner for univariate polynomials).
